@@ -43,7 +43,7 @@ LEVEL_TEXT = ("The counting logic of CountedLock and LockableFiles is a small "
 LEVEL_NOTE = ("Beyond length 9 and on real objects the check is a sample. The "
               "model of which object locks which (tree -> branch -> repository "
               "-> fallbacks) is taken from the class documentation.")
-REGISTERED = False
+REGISTERED = True
 NONTRIVIAL_FLOOR = {"quick": 2000, "thorough": 20000}
 
 MAXLEN = {"quick": 7, "thorough": 9}
